@@ -1,6 +1,7 @@
 #include "ClmFile.h"
 #include "../Stream/SliceReader.h"
 #include "../XFile.h"
+#include "../StringUtility.h"
 #include <stdexcept>
 #include <algorithm>
 #include <cstring>
@@ -131,7 +132,11 @@ namespace OP2Utility::Archive
 		}
 
 		// Allowing duplicate names when packing may cause unintended results during search and file extraction.
-		VerifySortedContainerHasNoDuplicateNames(names);
+		// The files are sorted by their full filename, which does not always bring equal names (extensions stripped) together,
+		// so sort a copy of the stripped names before checking neighbours.
+		auto sortedNames = names;
+		std::sort(sortedNames.begin(), sortedNames.end(), StringUtility::IsEqualCaseInsensitive);
+		VerifySortedContainerHasNoDuplicateNames(sortedNames);
 
 		// Write the archive header and copy files into the archive
 		WriteArchive(archiveFilename, filesToPackReaders, indexEntries, names, PrepareWaveFormat(waveFormats));
